@@ -6,14 +6,170 @@ package main
 // it calls for \x, \u and \U escapes consume bytes too: if they consume without looking, a malformed
 // escape takes the closing quote as a digit and the string token runs on ("\x" + "b" was one token). In
 // every lexer function reachable from readString (readString itself, readChar and peekChar excepted) a
-// call of readChar sits on the true edge of a byte predicate applied to peekChar() of the same lexer,
-// and that predicate (folded on all 256 bytes) rejects both quote characters and the NUL end marker.
+// call of readChar is dominated by a peekChar() of the same lexer, and with that byte fixed to a quote
+// character or to the NUL end marker the block of the readChar is unreachable: branch conditions are
+// evaluated on the fixed byte (comparisons, arithmetic, && / || phis, calls of the lexer's pure byte
+// predicates folded by bytepred); what cannot be evaluated is taken both ways.
 
 import (
+	"fmt"
+	"go/constant"
+	"go/token"
 	"go/types"
 
 	"golang.org/x/tools/go/ssa"
 )
+
+func byteName(b int64) string {
+	if b == 0 {
+		return "NUL"
+	}
+	return fmt.Sprintf("%q", rune(b))
+}
+
+// evalWith: the value of v when `fixed` holds the byte b (ok=false: not determined).
+func (c *Ctx) evalWith(v ssa.Value, fixed ssa.Value, b int64, from *ssa.BasicBlock, depth int) (int64, bool) {
+	if v == fixed {
+		return b, true
+	}
+	if depth > 12 {
+		return 0, false
+	}
+	switch x := v.(type) {
+	case *ssa.Const:
+		if x.Value == nil {
+			return 0, false
+		}
+		switch x.Value.Kind() {
+		case constant.Bool:
+			if constant.BoolVal(x.Value) {
+				return 1, true
+			}
+			return 0, true
+		case constant.Int:
+			i, ok := constant.Int64Val(x.Value)
+			return i, ok
+		}
+	case *ssa.Convert:
+		return c.evalWith(x.X, fixed, b, from, depth+1)
+	case *ssa.ChangeType:
+		return c.evalWith(x.X, fixed, b, from, depth+1)
+	case *ssa.UnOp:
+		if x.Op == token.NOT {
+			if a, ok := c.evalWith(x.X, fixed, b, from, depth+1); ok {
+				return 1 - a, true
+			}
+		}
+	case *ssa.BinOp:
+		l, ok1 := c.evalWith(x.X, fixed, b, from, depth+1)
+		r, ok2 := c.evalWith(x.Y, fixed, b, from, depth+1)
+		if !ok1 || !ok2 {
+			return 0, false
+		}
+		bv := func(t bool) (int64, bool) {
+			if t {
+				return 1, true
+			}
+			return 0, true
+		}
+		switch x.Op {
+		case token.EQL:
+			return bv(l == r)
+		case token.NEQ:
+			return bv(l != r)
+		case token.LSS:
+			return bv(l < r)
+		case token.LEQ:
+			return bv(l <= r)
+		case token.GTR:
+			return bv(l > r)
+		case token.GEQ:
+			return bv(l >= r)
+		case token.ADD:
+			return l + r, true
+		case token.SUB:
+			return l - r, true
+		case token.AND:
+			return l & r, true
+		case token.OR:
+			return l | r, true
+		}
+	case *ssa.Call:
+		callee := x.Common().StaticCallee()
+		if callee == nil || len(x.Common().Args) != 1 {
+			return 0, false
+		}
+		obj, _ := callee.Object().(*types.Func)
+		if obj == nil {
+			return 0, false
+		}
+		a, ok := c.evalWith(x.Common().Args[0], fixed, b, from, depth+1)
+		if !ok || a < 0 || a > 255 {
+			return 0, false
+		}
+		if res, ok := c.evalBytePred(obj, a, 0); ok {
+			if res {
+				return 1, true
+			}
+			return 0, true
+		}
+	}
+	return 0, false
+}
+
+// reachableWith: can block target execute after `fixed` (an instruction of fn) produced the byte b?
+// Conditions that evaluate to a constant under that assumption are followed one way only; a && / || phi is
+// resolved from the edge the walk arrives on.
+func (c *Ctx) reachableWith(fn *ssa.Function, fixed *ssa.Call, b int64, target *ssa.BasicBlock) bool {
+	type state struct {
+		blk  *ssa.BasicBlock
+		from *ssa.BasicBlock
+	}
+	seen := map[state]bool{}
+	var walk func(blk, from *ssa.BasicBlock) bool
+	walk = func(blk, from *ssa.BasicBlock) bool {
+		st := state{blk, from}
+		if seen[st] {
+			return false
+		}
+		seen[st] = true
+		if blk == target && blk != fixed.Block() {
+			return true
+		}
+		// a re-execution of the peek invalidates the assumption: stop there (the new byte is judged on its own)
+		if blk == fixed.Block() && from != nil {
+			return false
+		}
+		last := blk.Instrs[len(blk.Instrs)-1]
+		if ifi, ok := last.(*ssa.If); ok {
+			cond := ifi.Cond
+			// phi of && / ||: take the operand of the edge we came by
+			if phi, ok := cond.(*ssa.Phi); ok && phi.Block() == blk && from != nil {
+				for i, p := range blk.Preds {
+					if p == from {
+						cond = phi.Edges[i]
+					}
+				}
+			}
+			if v, ok := c.evalWith(cond, fixed, b, from, 0); ok {
+				if v != 0 {
+					return walk(blk.Succs[0], blk)
+				}
+				return walk(blk.Succs[1], blk)
+			}
+		}
+		for _, s := range blk.Succs {
+			if walk(s, blk) {
+				return true
+			}
+		}
+		return false
+	}
+	if fixed.Block() == target {
+		return true // nothing between the peek and the consumption
+	}
+	return walk(fixed.Block(), nil)
+}
 
 func (c *Ctx) checkEscapeReaders(r *Report, rule string) {
 	readString := c.SSAFn(c.Fn("lexer", "Lexer.readString"))
@@ -53,34 +209,26 @@ func (c *Ctx) checkEscapeReaders(r *Report, rule string) {
 			if k > 1 {
 				desc += " #" + itoa(k)
 			}
-			good, why := false, "no byte predicate on peekChar() controls this readChar()"
-			for _, cc := range controlling(call.Block()) {
-				pc, ok := cc.Cond.(*ssa.Call)
-				if !ok || cc.Edge != 0 {
-					continue
+			// the byte about to be consumed: the latest peekChar() of the same lexer that dominates the call
+			var peek *ssa.Call
+			for _, pc := range callsIn(fn, peekChar) {
+				pcv, ok := pc.(*ssa.Call)
+				if ok && sameValue(pcv.Common().Args[0], call.Common().Args[0]) && instrDominates(pcv, call) {
+					if peek == nil || instrDominates(peek, pcv) {
+						peek = pcv
+					}
 				}
-				callee := pc.Common().StaticCallee()
-				if callee == nil || len(pc.Common().Args) != 1 {
-					continue
-				}
-				arg, ok := pc.Common().Args[0].(*ssa.Call)
-				if !ok || calleeObj(arg) != peekChar || !sameValue(arg.Common().Args[0], call.Common().Args[0]) {
-					continue
-				}
-				obj, _ := callee.Object().(*types.Func)
-				if obj == nil {
-					continue
-				}
-				set, ok := c.ByteSet(obj)
-				if !ok {
-					why = "the predicate " + callee.Name() + " could not be folded on all bytes"
-					continue
-				}
-				if set[0] || set['"'] || set['`'] {
-					why = "the predicate " + callee.Name() + " accepts a quote character or the NUL end marker"
-					continue
-				}
+			}
+			good, why := false, "no peekChar() of the same lexer dominates this readChar(): the byte is consumed unseen"
+			if peek != nil {
 				good = true
+				for _, b := range []int64{0, '"', '`'} {
+					if c.reachableWith(fn, peek, b, call.Block()) {
+						good = false
+						why = "with peekChar() == " + byteName(b) + " the tests between the peek and this readChar() can all pass"
+						break
+					}
+				}
 			}
 			r.Check(good, rule, fname, desc, c.Pos(call.Pos()), why+": an escape with too few digits consumes the closing quote (or runs past the end of the input) and the string token swallows what follows")
 		}
